@@ -60,6 +60,12 @@ def formulas(tier, rng):
     for G in ("(a + b)", "(a + f(x))", "(a + b + c)"):
         out += [f"{G}**2 + {G}:c", f"{G}**2 - {G}", f"{G}/c + {G}:d", f"{G}/c - {G}", f"y ~ {G}**2 + {G}:c", f"{G}:c + {G}:d", f"{G}*c + {G}:d",
                 f"{G} - a + {G}"]
+    # a difference applied directly to the result of  l op (multi-term)  (before anything is united with it: three operators)
+    for l in ("a", "b", "a:b", "f(x)"):
+        for B in RIGHTS + ["a + b + c", "b + a:b"]:
+            for op in ("/", "*", ":"):
+                for u in ("a", "b", "a:b", "a:c"):
+                    out += [f"y ~ ({l} {op} ({B}) - {u})", f"(({l} {op} ({B})) - {u}) + c", f"(({B}) {op} {l} - {u})"]
     pick = base if tier == "thorough" else rng.sample(base, min(len(base), 1500))
     for f in pick:
         out += [f"y ~ {f}", f"y ~ 0 + {f}", f"{f} - 1", f"y ~ {f} + 1", f"f(y) ~ 1 + {f}", f"y ~ {f} + 0"]
@@ -67,6 +73,44 @@ def formulas(tier, rng):
         deep = list(trees(3, small[:4]))
         out += rng.sample(deep, min(len(deep), 40000))
     return out
+
+
+PREC = {"+": 1, "-": 1, "*": 2, "/": 2, ":": 3, "**": 4}          # the documented precedence (binary operators, all left-associative)
+
+
+def parenthesise(chain):
+    """fully parenthesised form of  atom op atom op ... atom  under the documented precedence (precedence climbing, written here,
+    independent of the parser)"""
+    pos = [0]
+
+    def climb(minp):
+        left = chain[pos[0]]
+        pos[0] += 1
+        while pos[0] < len(chain) and PREC[chain[pos[0]]] >= minp:
+            op = chain[pos[0]]
+            pos[0] += 1
+            right = climb(PREC[op] + 1)
+            left = f"({left} {op} {right})"
+        return left
+    return climb(1)
+
+
+def chains(tier, rng):
+    """(unparenthesised formula, its fully parenthesised form): the first must expand as the second"""
+    out = []
+    ops = list(PREC)
+    for n in (2, 3):
+        for seq in itertools.product(ops, repeat=n):
+            if len(set(PREC[o] for o in seq)) == 1 and len(set(seq)) == 1 and seq[0] in "+:":
+                continue
+            atoms = ["a", "b", "c", "d"][:n + 1]
+            chain = [atoms[0]]
+            for o, x in zip(seq, atoms[1:]):
+                chain += [o, "2" if o == "**" else x]
+            plain, full = " ".join(chain), parenthesise(chain)
+            out += [(plain, full), (f"y ~ {plain}", f"y ~ {full}"), (f"y ~ x + ({plain}|g)", f"y ~ x + ({full}|g)")]
+            out.append((plain.replace(" ", ""), full))
+    return out if tier == "thorough" else rng.sample(out, min(len(out), 400)) + out[:160]
 
 
 def late_removal(tree):
@@ -166,8 +210,11 @@ def _chunk(forms):
     known = 0
     known2 = 0
     for f in forms:
+        ref = f
+        if isinstance(f, tuple):         # (formula without parentheses, the fully parenthesised form it must be read as)
+            f, ref = f
         try:
-            tree = Parser(Scanner(f).scan(False)).parse()
+            tree = Parser(Scanner(ref).scan(False)).parse()
             spec = expand(tree)
         except OutOfLanguage:
             continue
@@ -191,7 +238,10 @@ def _chunk(forms):
                     and all(":" in n for n in spec[1] - obs[1])):
                 known2 += 1
                 continue
-            bad.append((f, "expansion differs from the set-semantics specification", str(spec), str(obs)))
+            bad.append((f, "expansion differs from the set-semantics specification" + (f" of its fully parenthesised form {ref}" if ref != f else ""),
+                        str(spec), str(obs)))
+            continue
+        if ref != f:
             continue
         # the specification function of the Resolver contract (vf/contracts/algebra_c.model_of), executed natively on the real syntax
         # tree with the real operator overloads, against the real Resolver
@@ -212,7 +262,7 @@ def _chunk(forms):
 
 
 def PROOFS():
-    from ..contracts import algebra_c
+    from ..contracts import algebra_c, parser_c
     T = "formulae.terms.terms."
     R = "formulae.terms.call_resolver."
     from ..contracts import terms_c
@@ -223,13 +273,17 @@ def PROOFS():
             ("vf.contracts.variable_c", ["formulae.terms.call.Call.__eq__", "formulae.terms.call.Call.__hash__",
                                          "formulae.terms.variable.Variable.__eq__", "formulae.terms.variable.Variable.__hash__"]),
             # the Resolver: every operator token is wired to the documented operator of the term classes, operands in source order
-            ("vf.contracts.algebra_c", algebra_c.FUNCTIONS)]
+            ("vf.contracts.algebra_c", algebra_c.FUNCTIONS),
+            # the syntax tree the Resolver is given: the parser's binary levels (documented precedence, left-associative)
+            ("vf.contracts.parser_c", parser_c.FUNCTIONS)]
 
 
 def run(report, findings):
     checklib.run_proofs(report, "C02", PROOFS())
     rng = random.Random(common.seed())
     forms = sorted(set(formulas(report.tier, rng)))
+    pairs = sorted(set(chains(report.tier, rng)))
+    forms = forms + pairs
     chunks = [forms[i::64] for i in range(64)]
     res = par.pmap(_chunk, chunks)
     evals = sum(r[0] for r in res)
@@ -257,14 +311,15 @@ def run(report, findings):
         "evaluations": evals, "distinct_nontrivial": nontriv,
         "rule": "distinct formula strings inside the documented language (intercept literals only as additive items of "
                 "the right-hand side / effect side of |); non-trivial = the specified expansion has at least three terms",
-        "samples": forms[:3] + forms[len(forms) // 2: len(forms) // 2 + 3] + forms[-3:],
+        "samples": forms[:3] + forms[len(forms) // 3: len(forms) // 3 + 3] + [" == ".join(p) for p in pairs[-3:]],
         "exhaustive": True,
         "bounded": {"enumerator": "all operator trees with <=2 binary operators over 7 atoms (5 for depth 2), **2/**3, "
-                                  "20 effect expressions x 5 grouping expressions x 4 contexts, intercept contexts; "
+                                  "20 effect expressions x 5 grouping expressions x 4 contexts, intercept contexts; chains of 3-4 atoms without parentheses "
+                                  "against their fully parenthesised form (own precedence climbing); "
                                   "thorough adds 40000 depth-3 trees", "formulas_generated": len(forms)},
         "oracle": "vf/rtc/algebra.py expand(): executable set-semantics specification over the parser AST; term identity is "
                   "the ordered duplicate-free factor list (a:b and b:a are different terms, as in formulae)",
     })
-    report.assumptions = list(dict.fromkeys(list(report.assumptions) + ["scanner and parser are trusted to deliver the AST (C01)",
+    report.assumptions = list(dict.fromkeys(list(report.assumptions) + ["the scanner is trusted to deliver the tokens (C01)",
                           "formulas outside the documented language (parenthesised intercept literals, '- 0', "
                           "group terms as operands of : * / **) are skipped, not judged"]))
